@@ -6,12 +6,12 @@ HERE = os.path.dirname(os.path.dirname(os.path.abspath(__file__)))
 ALL = [f"C{i:02d}" for i in range(1, 21)]
 CLAIMED = {
     "C04": dict(
-        text="Theorems over the reals about the Gallina translation of every norm kernel regenerated from norm.py on each run (closed forms, range, commutativity, monotonicity, associativity, identity, annihilator, min/max bounds, duality), plus a bit-exact binary64 correspondence of the same translated kernels against NumPy on the exhaustive dyadic grid, random and special values, and a direct law/formula oracle on the implementation.",
-        note="Coq kernel + vm_compute; stdlib Reals axioms (sig_forall_dec, sig_not_dec, classic, functional_extensionality_dep); the translator tools/translate.py; PrimFloat = IEEE binary64; R-level theorems do not speak about rounding.",
+        text="Theorems over the reals about the Gallina translation of every norm kernel regenerated from norm.py on each run (closed forms, range, commutativity, monotonicity, associativity, identity, annihilator, min/max bounds, duality), plus a bit-exact binary64 correspondence of the same translated kernels against NumPy on the exhaustive dyadic grid, random and special values, and a direct law/formula oracle on the implementation. Binary64 level (C04b, through Flocq): every law is proved for all doubles of [0,1] or refuted by a computed witness, per norm; the proved ones are checked exactly (no tolerance) on the implementation.",
+        note="Coq kernel + vm_compute; stdlib Reals axioms (sig_forall_dec, sig_not_dec, classic, functional_extensionality_dep) and FloatAxioms (specification of the primitive float operations); the translator tools/translate.py; PrimFloat = IEEE binary64.",
         technique="Rocq proof over R of a model regenerated from source by a translator + bit-exact correspondence (vm_compute on PrimFloat)",
         ref="DESIGN.md §3 C04"),
     "C05": dict(
-        text="Theorems over the reals about the Gallina translation of every hedge kernel regenerated from hedge.py on each run (closed forms, range, fix points, monotonicity, ordering, mutual inverses, involution), plus a bit-exact binary64 correspondence (libm pow results recorded by an observer clone) and a direct oracle on the implementation.",
+        text="Theorems over the reals about the Gallina translation of every hedge kernel regenerated from hedge.py on each run (closed forms, range, fix points, monotonicity, ordering, mutual inverses, involution), plus a bit-exact binary64 correspondence (libm pow results recorded by an observer clone) and a direct oracle on the implementation. Binary64 level (C05b): range, fixed points, monotonicity on doubles and very(x) <= x <= somewhat(x) proved for all doubles of [0,1]; involution and inverse pairs refuted by witness; the proved laws are checked exactly on the implementation (monotonicity on consecutive doubles).",
         note="As C04; libm pow(x,2) results are taken from the implementation.",
         technique="Rocq proof over R of a model regenerated from source by a translator + bit-exact correspondence (vm_compute on PrimFloat)",
         ref="DESIGN.md §3 C05"),
@@ -22,12 +22,12 @@ CLAIMED = {
         ref="DESIGN.md §3 C20"),
     "C03": dict(
         text="Theorems over the reals about the Gallina translation of every shape term regenerated from term.py on each run: membership = height x documented closed form under the term's validity predicate, range [0,height], break-point values, monotonicity of exactly the terms that declare it; over the extended reals (NaN, +-inf with IEEE special-value rules): NaN exactly when x is NaN, values at +-inf, infinite shoulders; for Discrete (hand model of numpy.interp) the documented piecewise-linear interpolation, range, continuity, monotonicity and NaN behaviour (C03d); bit-exact binary64 correspondence of the same kernels (and of a hand model of numpy.interp for Discrete) against NumPy at every parameter value and its float neighbours, +-inf, NaN, scalar/1-d/2-d; float-level range/NaN/break-point statements are searched, not proved.",
-        note="Coq kernel + vm_compute; stdlib Reals axioms; translator; exp/cos/power/libm-pow results recorded from the implementation; R/ER theorems do not speak about rounding (the float-level statements are marked partial in the evidence); Discrete is a hand model of numpy.interp.",
+        note="Coq kernel + vm_compute; stdlib Reals axioms; translator; exp/cos/power/libm-pow results recorded from the implementation; R/ER theorems do not speak about rounding; at the binary64 level (C03e/C03f, through Flocq, FloatAxioms) NaN-iff and range [0,height] are PROVED for every double x for Rectangle, Binary, Ramp, Triangle, Trapezoid, refuted by ulp-level/underflow witnesses for Concave, SemiEllipse, Arc, and searched only for the remaining terms (marked partial in the evidence); the attempt found and led to the repair of an SShape defect (fix 5d81399); Discrete is a hand model of numpy.interp.",
         technique="Rocq proof over R and extended reals of a model regenerated from source + bit-exact correspondence (vm_compute on PrimFloat)",
         ref="DESIGN.md §3 C03"),
     "C11": dict(
         text="Theorems over the reals about the translated tsukamoto kernels: membership(tsukamoto(y)) = y for 0<y<height (both directions), z monotone in y in the term's direction, z inside the support, tsukamoto defined iff the class declares itself monotonic (generated table); bit-exact binary64 correspondence incl. y next to 0, height/2, height; float-level inverse within 1e-6 h searched, not proved.",
-        note="As C03; log and libm pow results recorded from the implementation.",
+        note="As C03; log and libm pow results recorded from the implementation; C11b: binary64-level finiteness, z(0) = start and monotonicity of Ramp/Concave inverses proved for all doubles (containment on the end side refuted by ulp-level witnesses), checked exactly on the implementation.",
         technique="Rocq proof over R of a model regenerated from source + bit-exact correspondence (vm_compute on PrimFloat)",
         ref="DESIGN.md §3 C11"),
     "C07": dict(
@@ -77,7 +77,7 @@ CLAIMED = {
         ref="DESIGN.md §3 C19"),
     "C02": dict(
         text="NumPy-lite model of array values with their shapes (0-d/1-d/2-d, atleast_2d, transpose, squeeze, broadcasting) and a vectorised model of Engine.process following the code's shapes; theorem batch_eq_rows: for every engine with General activation (integral defuzzifiers at resolution >= 2 or a one-row batch, no Linear term under an integral defuzzifier) and every batch, the vectorised model equals the scalar model folded over the rows with values and previous values carried from row to row, errors included; component theorems for Activated/Aggregated membership, defuzzifiers, weighted defuzzifiers, the cascade (split invariance with singleton cuts) and the input_values setter/getter; kernel-checked refutation at resolution 1 (known finding). Correspondence: implementation batch vs implementation row-by-row floats (exact), Coq rows model vs float mode, Coq batch model vs batch mode incl. shapes, all shipped examples.",
-        note="Coq kernel + vm_compute; closed under the global context (binary64 laws via the standard library's FloatAxioms); hand models tied by correspondence; Function terms not modelled on batches; one numeric reading of numpy.float64**2 on both sides (the two readings are compared by the direct oracle); known finding batch:resolution-1 reported as KNOWN-FINDING.",
+        note="Coq kernel + vm_compute; closed under the global context (binary64 laws via the standard library's FloatAxioms); hand models tied by correspondence; Function terms not modelled on batches; batch_eq_rows uses one numeric reading of numpy.float64**2 on both sides; C02b proves that every generated kernel is the same function in the scalar and the array reading (and the direct oracle compares them); known finding batch:resolution-1 reported as KNOWN-FINDING.",
         technique="Rocq proof (vectorised model = scalar model folded over rows) + exact three-way correspondence",
         ref="DESIGN.md §3 C02, §9"),
     "C12": dict(
